@@ -255,7 +255,7 @@ def main():
         "checks": checks,
         "not_applicable": na,
         "notes": "Exit 0 = held on everything observed (KNOWN-FINDING lines allowed), 1 = VIOLATION line(s), 2 = inconclusive "
-                 "(never a violation). VERIF_SEED seeds every generator.",
+                 "(never a violation). VERIF_SEED seeds every generator. Known findings and repaired defects: /verif/known_findings.json (status known = suppressed to one KNOWN-FINDING line per entry, matched on exact signature patterns; status fixed = documentation only, suppresses nothing).",
     }
     if not na:
         del man["not_applicable"]
